@@ -91,6 +91,8 @@ def binary_delim(scn, res=None):
         return False
     for reqs in scn['conns']:
         for r in reqs:
+            if r.get('raw') is not None:
+                continue
             if has_delim(codec.frame('binary', r['u'], bytes.fromhex(r['pdu']))[1:-1]):
                 return True
     if res is not None:
@@ -397,9 +399,10 @@ def derive(scn):
     for c, reqs in enumerate(scn['conns']):
         cur = None
         for i, r in enumerate(reqs):
-            fr = codec.frame(framing, r['u'], bytes.fromhex(r['pdu']), tid=r['tid'], pid=r.get('pid', 0))
-            if r.get('raw'):
+            if r.get('raw') is not None:
                 fr = bytes.fromhex(r['raw'])
+            else:
+                fr = codec.frame(framing, r['u'], bytes.fromhex(r['pdu']), tid=r['tid'], pid=r.get('pid', 0))
             if r.get('join') and cur is not None:
                 cur['data'] += fr
                 continue
@@ -447,9 +450,10 @@ def split_output(framing, chunks, stream):
 class Analysis(object):
     """Lock-step comparison of one H-SRV run with the reference model."""
 
-    def __init__(self, scn, res):
+    def __init__(self, scn, res, skip_unmatched_output=False):
         self.scn = scn
         self.res = res
+        self.skip_unmatched_output = skip_unmatched_output
         self.v = []                 # (class, detail dict, message)
         self.stats = {}
         self.run()
@@ -472,9 +476,13 @@ class Analysis(object):
         for c, reqs in enumerate(scn['conns']):
             lst = []
             for i, r in enumerate(reqs):
-                lst.append({'c': c, 'i': i, 'u': r['u'], 'tid': r['tid'], 'pdu': bytes.fromhex(r['pdu']),
+                if r.get('raw') is not None:
+                    continue        # hostile bytes: no expectation attached
+                lst.append({'c': c, 'i': len(lst), 'u': r['u'], 'tid': r['tid'], 'pdu': bytes.fromhex(r['pdu']),
                             'tag': r.get('tag'), 'execs': [], 'expect': None})
             pend.append(lst)
+        hostile = set(scn.get('hostile') or [])
+        self.unsolicited = []
         ptr = [0] * len(pend)
         flat = [q for lst in pend for q in lst]
         # ---- walk executions in the order they happened
@@ -509,9 +517,23 @@ class Analysis(object):
                                 q0['skipped'] = True
                     break
             if owner is None:
-                self.add('exec-unsolicited', 'executed a request that no connection sent (or out of order): pdu=%s unit=%s tid=%s'
-                         % (e['pdu'].hex(), e['unit_id'], e['tid']), fc=e['pdu'][0] if e['pdu'] else None)
-                prev_dump = e.get('after', prev_dump)
+                after = e.get('after', prev_dump)
+                if hostile:
+                    # executed from hostile bytes: legitimate only if those bytes contain a
+                    # valid frame for this PDU (judged by the caller) and the effect is the model's
+                    m = model.get(e['ctx_unit'])
+                    acc = None
+                    if m is not None:
+                        self._resync(model, prev_dump)
+                        acc, _ = m.execute(e['pdu'])
+                    want = {u: mm.dump() for u, mm in model.items()}
+                    self.unsolicited.append({'exec': e, 'changed': after != prev_dump,
+                                             'effect_ok': (after == want) if acc is not None else (after == prev_dump),
+                                             'modelled': acc is not None})
+                else:
+                    self.add('exec-unsolicited', 'executed a request that no connection sent (or out of order): pdu=%s unit=%s tid=%s'
+                             % (e['pdu'].hex(), e['unit_id'], e['tid']), fc=e['pdu'][0] if e['pdu'] else None)
+                prev_dump = after
                 self._resync(model, prev_dump)
                 continue
             owner['execs'].append(e)
@@ -600,6 +622,8 @@ class Analysis(object):
                 q['missing_exec'] = True
         # ---- outputs
         for c, lst in enumerate(pend):
+            if c in hostile:
+                continue
             chunks = res.outputs.get(c, [])
             try:
                 frames = split_output(framing, chunks, stream)
@@ -640,6 +664,13 @@ class Analysis(object):
                 if q.get('after_drop'):
                     continue
                 fc = q['pdu'][0]
+                if self.skip_unmatched_output and q['respond'] == 'one':
+                    # shared line: frames answering the hostile bytes precede; search forward
+                    j = fi
+                    while j < len(frames) and not self._answers(framing, q, frames[j]):
+                        j += 1
+                    if j < len(frames):
+                        fi = j
                 fr = frames[fi] if fi < len(frames) else None
                 match = fr is not None and self._answers(framing, q, fr)
                 if q['respond'] == 'none':
@@ -670,7 +701,7 @@ class Analysis(object):
                 if framing == 'tcp' and fr[2] != 0:
                     self.add('pid-nonzero', 'response protocol id %d' % fr[2], fc=fc)
                 self._judge_content(q, fr[3])
-            if fi < len(frames):
+            if fi < len(frames) and not self.skip_unmatched_output:
                 self.add('response-extra', '%d frame(s) on connection %d that answer no request: %s'
                          % (len(frames) - fi, c, frames[fi][3].hex()[:60]))
         if res.stray:
